@@ -82,6 +82,12 @@ def build_tree(g, depth=2, n_top=(1, 5), collide=False, repeat_p=0.35, ref_p=0.2
                 tgt = g.pick(targets["block"])
                 name = g.fresh(["BAlias", "BCopy"])
                 o = {"kind": "ref", "name": name, "target": tgt, "override": {"kind": "block", "address_offset": str(cursor + 40)}}
+                # a block ref may bring its own repeat, whether or not its target is repeated itself (the ref's wins);
+                # and it may leave the offset to the target
+                if g.chance(0.5):
+                    o["override"]["repeat"] = {"count": str(g.r.randint(1, 4)), "stride": str(g.pick([1, 2, 3, 7, 16, 32, -3, -16]))}
+                    if g.chance(0.15):
+                        del o["override"]["address_offset"]
                 objs.append(o)
                 cursor += 1
             else:
@@ -1491,6 +1497,76 @@ def prof_c20(g, n):
     for c in prof_layout(g, max(4, n // 2)):
         c["profile"] = "cli"
         out.append(c)
+    # rejected inputs with SEVERAL problems of one kind at once: whatever an error message lists (clashing enum numbers,
+    # duplicate names, overlapping fields, colliding addresses) must come out in the same order in every process
+    out += multi_defect_cases(g, max(6, n // 3))
+    return out
+
+
+def multi_defect_cases(g, n):
+    out = []
+    base_cfg = {"register_address_type": "u8", "command_address_type": "u8", "default_byte_order": "LE"}
+    for i in range(n):
+        g.reset_names()
+        kind = i % 6
+        objs = []
+        if kind == 0:
+            # an enum in which several different numbers are each given to two or three variants
+            groups = g.r.randint(2, 5)
+            variants = []
+            for k in range(groups):
+                num = g.pick([0, 1, 2, 3, 5, 7, 9, 12]) + 16 * k
+                for j in range(g.r.randint(2, 3)):
+                    variants.append({"name": "V%d_%d" % (k, j), "value": str(num)})
+            g.r.shuffle(variants)
+            fld = {"name": "f", "base": "uint", "start": 0, "end": 8,
+                   "conversion": {"enum": {"name": "En", "variants": variants}, "try": True}}
+            objs = [{"kind": "register", "name": "R", "address": "0", "size_bits": 8, "fields": [fld]}]
+        elif kind == 1:
+            # several pairs of objects with the same name, at different depths
+            names = ["Foo", "Bar", "Baz", "Qux"][:g.r.randint(2, 4)]
+            # (the same raw key twice in one manifest table is a parser error, not the name analysis: the second of a
+            # pair is spelled differently - it still normalises to the same name - or sits in another table)
+            regs = []
+            for a, nm in enumerate(names + [x.lower() for x in names]):
+                regs.append({"kind": "register", "name": nm, "address": str(a), "size_bits": 8, "fields": []})
+            g.r.shuffle(regs)
+            half = len(regs) // 2
+            objs = regs[:half] + [{"kind": "block", "name": "Blk", "address_offset": "64", "objects": regs[half:]}]
+        elif kind == 2:
+            # several overlapping pairs and several duplicate field names in one register
+            fields = []
+            pool = ["a", "A", "b", "B", "c", "C"]      # raw keys stay distinct; `a` and `A` normalise to one name
+            g.r.shuffle(pool)
+            for k in range(g.r.randint(3, 6)):
+                s0 = g.r.randint(0, 12)
+                fields.append({"name": pool.pop() if g.chance(0.6) else "f%d" % k, "base": "uint", "start": s0, "end": s0 + g.r.randint(2, 4)})
+            objs = [{"kind": "register", "name": "R", "address": "0", "size_bits": 16, "fields": fields}]
+        elif kind == 3:
+            # several address collisions among registers and among commands
+            for k in range(g.r.randint(4, 7)):
+                if g.chance(0.6):
+                    objs.append({"kind": "register", "name": "R%d" % k, "address": str(g.r.randint(0, 2)), "size_bits": 8, "fields": []})
+                else:
+                    objs.append({"kind": "command", "name": "C%d" % k, "address": str(g.r.randint(0, 1)), "basic": False})
+        elif kind == 4:
+            # several defaults and several catch-alls, several too-high values
+            variants = [{"name": "V%d" % k, "value": g.pick(["default", "catch_all", "300", "400", None])} for k in range(g.r.randint(4, 7))]
+            fld = {"name": "f", "base": "uint", "start": 0, "end": 4,
+                   "conversion": {"enum": {"name": "En", "variants": variants}, "try": g.chance(0.5)}}
+            objs = [{"kind": "register", "name": "R", "address": "0", "size_bits": 8, "fields": [fld]}]
+        else:
+            # several enums with the same name, several fields past the end of their register
+            for k in range(g.r.randint(2, 4)):
+                fld = {"name": "f", "base": "uint", "start": 0, "end": g.pick([2, 2, 12]),
+                       "conversion": {"enum": {"name": g.pick(["En", "En", "Other"]), "variants": [{"name": "A", "value": None}, {"name": "B", "value": "default"}]}, "try": False}}
+                objs.append({"kind": "register", "name": "R%d" % k, "address": str(k), "size_bits": 8, "fields": [fld]})
+        cfg = dict(base_cfg)
+        if kind == 5 and g.chance(0.5):
+            del cfg["default_byte_order"]
+            for o in objs:
+                o["size_bits"] = 16
+        out.append(case({"config": cfg, "objects": objs}, SYNTAXES[i % 4], "cli"))
     return out
 
 
@@ -1504,3 +1580,21 @@ def cases_for(prop, tier, seed):
     if prop == "C20":
         return CORPUS.get(prop, []) + prof_c20(g, 40 * k)
     return _cases_for_base6(prop, tier, seed)
+
+
+# ------------------------------------------------------------------------------------ manifest key order (every profile)
+
+_cases_for_keyed = cases_for
+
+
+def cases_for(prop, tier, seed):
+    """A manifest map is unordered as far as the documented language goes: about a third of the JSON / YAML / TOML cases
+    of every profile are written with the attribute keys of each object, field, override, repeat and extended variant
+    in reverse order and an inline enum's name / description after its variants (renderer key `key_order`, invisible to
+    the model, like `item_order` for DSL bodies)."""
+    cs = _cases_for_keyed(prop, tier, seed)
+    g = Gen(seed, stream=1000 + int(prop[1:]))
+    for c in cs:
+        if c["syntax"] != "dsl" and "key_order" not in c["adef"] and g.chance(0.35):
+            c["adef"] = dict(c["adef"], key_order="rev")
+    return cs
